@@ -307,6 +307,73 @@ def huge_check(sc):
                 raise vlib.Infra("huge script: instant %d too far from a multiple of M" % now)
 
 
+def guard_script(rnd, kind, hsel):
+    """slot 1: a "never" guard timer with a near-maximum interval (2^62, 2^63-1-base, INT64_MAX = milliseconds::max() ms), armed
+    with model interval M and never due (the clock only makes small steps here); slots 2..4: ordinary small timers that are
+    enabled / disabled / re-enabled / destroyed / cancelled between passes and from callbacks, and fire.  The guard only has to
+    sit in the loop's heap while the others are removed (deadlines >= 2^63 away from any marker the loop may use)."""
+    M, top, cb = HUGE_M, [], {}
+    ev = kind == "event"
+    base = rnd.choice([0, 1, 1000, 2 ** 32, 2 ** 40])
+    H = [2 ** 62, 2 ** 63 - 1 - base, 2 ** 63 - 1][hsel]
+
+    def arm(i, d, m, out):
+        if ev:
+            out.extend([{"o": "create", "i": i}, {"o": "init", "i": i, "d": d, "m": m}, {"o": "enable", "i": i}])
+        else:
+            out.append({"o": "every" if m == "persist" else "after", "i": i, "d": d})
+
+    def small_ops(count):
+        ops = []
+        for _ in range(count):
+            i, r = rnd.randint(2, 4), rnd.random()
+            if r < 0.35:
+                ops.append({"o": "disable" if ev else "cancel", "i": i})
+                if ev and rnd.random() < 0.5:
+                    ops.append({"o": "enable", "i": i})
+            elif r < 0.55:
+                ops.append({"o": "destroy" if ev else "cancel", "i": i})
+            elif r < 0.8:
+                arm(i, rnd.randint(1, 4), rnd.choice(["oneshot", "persist"]), ops)
+            elif r < 0.9 and ev:
+                ops.append({"o": "enable", "i": i})
+            else:
+                ops.append({"o": "adv", "n": 1})
+        return ops
+
+    order = [1, 2, 3, 4]
+    rnd.shuffle(order)
+    for i in order:
+        if i == 1:
+            arm(1, M, rnd.choice(["oneshot", "persist"]), top)
+        elif rnd.random() < 0.85:
+            arm(i, rnd.randint(1, 4), rnd.choice(["oneshot", "persist"]), top)
+    if rnd.random() < 0.7:
+        top.extend(small_ops(rnd.randint(1, 3)))        # e.g. a timeout called off before the loop looks at it
+    for _ in range(rnd.randint(4, 8)):
+        top.append({"o": "pass"})
+        if rnd.random() < 0.8:
+            top.append({"o": "adv", "n": rnd.randint(1, 3)})
+        if rnd.random() < 0.7:
+            top.extend(small_ops(rnd.randint(1, 3)))
+        if rnd.random() < 0.1:                          # the guard itself re-armed
+            top.extend([{"o": "disable", "i": 1}, {"o": "enable", "i": 1}] if ev else
+                       [{"o": "cancel", "i": 1}, {"o": "after", "i": 1, "d": M}])
+    top.extend([{"o": "pass"}, {"o": "adv", "n": 4}, {"o": "pass"}])
+    for i in (2, 3, 4):
+        for k in range(1, 7):
+            if rnd.random() < 0.4:
+                cb["%d:%d" % (i, k)] = small_ops(rnd.randint(1, 2))
+    total = sum(op.get("n", 0) for op in top if op["o"] == "adv") + 12 * 7 * 2
+    if total >= 1000:
+        raise vlib.Infra("guard script: clock moves too far")
+    return {"kind": kind, "n": 4, "base": base, "pre": rnd.random() < 0.4, "M": M, "H": str(H), "top": top, "cb": cb}
+
+
+def guard_scripts(rnd, reps):
+    return [guard_script(rnd, kind, hsel) for _ in range(reps) for kind in ("event", "pool") for hsel in (0, 1, 2)]
+
+
 def huge_scripts(rnd, reps):
     out = []
     for _ in range(reps):
@@ -451,7 +518,8 @@ def run(ctx):
 
     def j_huge(c):
         hs = huge_scripts(random.Random(ctx.seed * 7919 + 1), 1 if quick else 12)
-        run_scripts(c, exe, hs, "huge", "both", "Trace_small.cfg", "trace")
+        gs = guard_scripts(random.Random(ctx.seed * 104729 + 2), 15 if quick else 150)
+        run_scripts(c, exe, hs + gs, "huge", "both", "Trace_small.cfg", "trace")
         return hs
 
     jobs = [("mc", j_mc), ("focus", j_focus), ("mc2", j_mc2), ("pool", j_pool), ("random", j_random), ("deep", j_deep), ("huge", j_huge)]
@@ -487,7 +555,9 @@ def run(ctx):
     ctx.sample({"kind": "recorded trace (first events)", "events": first})
     ctx.sample({"kind": "huge-interval script (model units; the driver applies h*M+r as h*H+r ms)", "script": huge[6 * 12 + 1]})
     ctx.notes.append("huge family: %d scripts x 2 engines, unit H in %s ms, intervals H, 2H, 3H (+0..7 ms), alone and mixed with small "
-                     "timers, passes at small times, 1 ms before / at / after the deadlines, two periods late" % (len(huge), HUGE_H))
+                     "timers, passes at small times, 1 ms before / at / after the deadlines, two periods late; plus %d 'never-guard' scripts (a timer "
+                     "of 2^62 / 2^63-1-base / INT64_MAX ms armed while small timers are enabled, disabled, destroyed and fire)" %
+                     (len(huge), HUGE_H, 90 if quick else 900))
     ctx.assumptions = [
         "intervals are >= 1 ms (the statement's d >= 1); interval 0 is not generated",
         "a TimerEvent is not deleted from inside its own callback (the destructor asserts cb_level_ == 0); a TimerPool timer "
